@@ -245,4 +245,49 @@ abbrev Term (α : Type) := Nat × Nat × α
 def applyDescG {α : Type} [Add α] [Mul α] [Zero α] (T : Nat → List (Term α)) (xs : List (Nat → α)) : Nat → α :=
   fun i => ((T i).map fun t => t.2.2 * (xs.getD t.1 (fun _ => 0)) t.2.1).sum
 
+/-! ### The rest of the concrete family (round 3): sparse bilinear forms, quotients, real parts, conjugation
+
+  Generic over the scalar type: at `ℂ` these are proved to have the class facts for EVERY table
+  (`Proofs/JaxprFamily.lean`), at complex floats the driver runs them - single equations and whole programs - against
+  the JAX primitives and the scico operators (harness/jaxpr_family.py). -/
+
+/-- `(B i)` lists `(entry of u, entry of v, coefficient)`: `out i = Σ c · u j · v k`
+    (mul with broadcasting, dot_general, conv_general_dilated) -/
+def applyBilG {α : Type} [Add α] [Mul α] [Zero α] (B : Nat → List (Nat × Nat × α)) (u v : Nat → α) : Nat → α :=
+  fun i => ((B i).map fun t => t.2.2 * (u t.1 * v t.2.1)).sum
+
+/-- `out i = u j / v k` with `(j, k) = D i` (div with broadcasting) -/
+def applyDivG {α : Type} [Div α] (D : Nat → Nat × Nat) (u v : Nat → α) : Nat → α :=
+  fun i => u (D i).1 / v (D i).2
+
+/-- `out i = Σ re (c · u j)` over `(j, c) ∈ Rd i`, `re` = "real part, as a scalar"
+    (real: c = 1; imag: c = -i; complex → real conversion; irfft) -/
+def applyReG {α : Type} [Add α] [Mul α] [Zero α] (re : α → α) (Rd : Nat → List (Nat × α)) (u : Nat → α) : Nat → α :=
+  fun i => ((Rd i).map fun t => re (t.2 * u t.1)).sum
+
+/-- the tables of one program over the family: per primitive id -/
+structure FamTables (α : Type) where
+  lin : Nat → List (Nat → α) → Nat → List (Term α)
+  bil : Nat → Nat → List (Nat × Nat × α)
+  dv : Nat → Nat → Nat × Nat
+  rp : Nat → Nat → List (Nat × α)
+  lit : Nat → Nat → α
+
+/-- the family as an interpretation of the primitives (`nl`: anything, for the `nonlin` class) -/
+def famDen {α : Type} [Add α] [Mul α] [Zero α] [Div α] (re cj : α → α)
+    (nl : Nat → List (Nat → α) → Nat → α) (F : FamTables α) :
+    PClass → Nat → List (Nat → α) → List (Nat → α) → (Nat → α)
+  | .lit true, _, _, _ => fun _ => 0
+  | .lit false, n, _, _ => F.lit n
+  | .linAll, p, ps, xs => applyDescG (F.lin p ps) xs
+  | .bilinear, p, _, [u, v] => applyBilG (F.bil p) u v
+  | .bilinear, _, _, _ => fun _ => 0
+  | .divLike, p, _, [u, v] => applyDivG (F.dv p) u v
+  | .divLike, _, _, _ => fun _ => 0
+  | .realPart, p, _, [u] => applyReG re (F.rp p) u
+  | .realPart, _, _, _ => fun _ => 0
+  | .conj, _, _, [u] => fun i => cj (u i)
+  | .conj, _, _, _ => fun _ => 0
+  | .nonlin, p, _, xs => nl p xs
+
 end Scico.Jaxpr
